@@ -375,8 +375,54 @@ Proof.
        | H : Sum _ = CNone |- _ => discriminate H
        | H : CNone = Sum _ |- _ => discriminate H
        end.
-  all: try (eapply Hp; [reflexivity|congruence]).
-  all: try (eapply H0; [lia|reflexivity|congruence]).
-  all: try (eapply H1; [lia|reflexivity|congruence]).
-  Show.
+  all: repeat match goal with
+       | H : forall b, Some _ = Some b -> _ |- _ => specialize (H _ eq_refl)
+       | H : forall b, (_ < 2)%nat -> Body _ = Body b -> _ |- _ => specialize (H _ ltac:(lia) eq_refl)
+       end; congruence.
 Qed.
+
+(* ---------------------------------------------------------------------------------------------- *)
+(* (B) bytes                                                                                       *)
+
+Section BytesProofs.
+  Variable byte : Type.
+
+  Lemma save_stream_loop_app : forall (chunks : list (list byte)) (file : list byte),
+    save_stream_loop byte chunks file = file ++ concat chunks.
+  Proof.
+    induction chunks as [|c r IH]; intros file; cbn [save_stream_loop concat].
+    - rewrite app_nil_r. reflexivity.
+    - destruct c as [|x c']; cbn [is_nil].
+      + rewrite IH. reflexivity.
+      + rewrite IH, <- app_assoc. reflexivity.
+  Qed.
+
+  (* whatever chunking iter_content produces (empty chunks included), the file ends up holding
+     exactly the bytes of the response body, and nothing of what it held before *)
+  Lemma save_stream_concat : forall chunks : list (list byte), save_stream byte chunks = concat chunks.
+  Proof. intros chunks. unfold save_stream. rewrite save_stream_loop_app. reflexivity. Qed.
+
+  Variable hstate : Type.
+  Variable upd : hstate -> list byte -> hstate.
+  Hypothesis upd_app : forall m a b, upd (upd m a) b = upd m (a ++ b).
+  Hypothesis upd_nil : forall m, upd m [] = m.
+
+  Lemma md5_loop_spec : forall fuel bs rest m, (0 < bs)%nat -> (length rest < fuel)%nat ->
+    md5_loop byte hstate upd fuel bs rest m = Some (upd m rest).
+  Proof.
+    induction fuel as [|fuel IH]; intros bs rest m Hbs Hf; [lia|]. cbn [md5_loop].
+    destruct rest as [|x rest'].
+    - rewrite firstn_nil. cbn [is_nil]. rewrite upd_nil. reflexivity.
+    - destruct bs as [|bs']; [lia|]. cbn [firstn is_nil].
+      rewrite IH; [|lia|].
+      + rewrite upd_app. change (x :: firstn bs' rest') with (firstn (S bs') (x :: rest')).
+        rewrite firstn_skipn. reflexivity.
+      + rewrite skipn_length. cbn [length] in *. lia.
+  Qed.
+
+  (* _md5 feeds the hash exactly the file's bytes, for every positive block size: the loop ends, and
+     the digest does not depend on the block size *)
+  Lemma md5_file_spec : forall bs content m, (0 < bs)%nat ->
+    md5_file byte hstate upd bs content m = Some (upd m content).
+  Proof. intros bs content m Hbs. unfold md5_file. apply md5_loop_spec; [exact Hbs|lia]. Qed.
+End BytesProofs.
